@@ -33,6 +33,7 @@ type GenOpts struct {
 	Shapes             []string // allowed type shapes (nil = all)
 	MaxFanIn           int
 	SimpleNames        bool
+	NoInlineSets       bool
 }
 
 func DefaultGenOpts() GenOpts {
@@ -871,7 +872,7 @@ func (g *Gen) Emit() {
 		if s.pkg == 0 && r.Intn(3) == 0 {
 			name = strings.ToLower(name[:1]) + name[1:]
 		}
-		s.set = p.AddSet(&Set{Pkg: s.pkg, Name: name, InInjectFile: s.pkg == 0 && r.Intn(3) == 0})
+		s.set = p.AddSet(&Set{Pkg: s.pkg, Name: name, InInjectFile: s.pkg == 0 && r.Intn(3) == 0, Inline: !g.opts.NoInlineSets && r.Intn(4) == 0})
 	}
 	for si, s := range g.sets {
 		if s.set == nil {
